@@ -206,7 +206,7 @@ func checkC18(c C18Case, o *h.Obs) *h.Fail {
 	return nil
 }
 
-const ruleC18 = "rapid-generated workloads under the race detector (test binary built with -race, GORACE=halt_on_error=1): a pool of 2-6 shared operands (small; straddling the Karatsuba threshold of 30 words; straddling the recursive-division threshold of 100 words; up to 4000 (quick) / 8000 (thorough) digits; clean, large-capacity and acc != Exact histories) and 2-8 goroutines each running 1-8 operations (Add, Sub, Mul, Mul(x,x), Quo, FMA, Sqrt, Set, Cmp, Text, Format, Float64, Int, GobEncode, MarshalText, runtime.GC to empty the scratch-buffer pool, Gosched) into receivers of their own; GOMAXPROCS drawn from {1,2,4,16}. Oracle: no race report; every concurrent result equals the result of the same program run sequentially beforehand; every shared operand is bit-identical afterwards. Non-trivial = at least two goroutines sharing an operand of >= 30 words with at least one operation that uses pooled scratch space. The race detector flags conflicting unsynchronised accesses that occur in a run largely independent of timing; interleaving-only failures without a race are outside what this search can show (no schedule enumeration)."
+const ruleC18 = "rapid-generated workloads under the race detector (GORACE=halt_on_error=1), run with two race builds - the default one and one with -tags decimal_pure_go, because the detector does not see memory accesses made by the amd64 assembly kernels -: a pool of 2-6 shared operands (small; straddling the Karatsuba threshold of 30 words; straddling the recursive-division threshold of 100 words; up to 4000 (quick) / 8000 (thorough) digits; clean, large-capacity and acc != Exact histories) and 2-8 goroutines each running 1-8 operations (Add, Sub, Mul, Mul(x,x), Quo, FMA, Sqrt, Set, Cmp, Text, Format, Float64, Int, GobEncode, MarshalText, runtime.GC to empty the scratch-buffer pool, Gosched) into receivers of their own; GOMAXPROCS drawn from {1,2,4,16}. Oracle: no race report; every concurrent result equals the result of the same program run sequentially beforehand; every shared operand is bit-identical afterwards. Non-trivial = at least two goroutines sharing an operand of >= 30 words with at least one operation that uses pooled scratch space. The race detector flags conflicting unsynchronised accesses that occur in a run largely independent of timing; interleaving-only failures without a race are outside what this search can show (no schedule enumeration)."
 
 var propC18 = &h.Prop[C18Case]{ID: "C18", Rule: ruleC18, Gen: genC18, Check: checkC18, Matchers: map[string]func(C18Case) bool{}}
 
